@@ -502,6 +502,23 @@ func (vc *VC) leafFact(term string, l Leaf) string {
 	if isStringT(l.GoT) {
 		return "(>= (strlen " + term + ") 0)"
 	}
+	if n, ok := types.Unalias(l.GoT).(*types.Named); ok && n.Obj().Pkg() != nil && n.Obj().Pkg().Path() == "sync/atomic" {
+		rng := func(lo, hi *big.Int) string {
+			return "(and (>= " + term + " " + intLit(lo) + ") (<= " + term + " " + intLit(hi) + "))"
+		}
+		switch n.Obj().Name() {
+		case "Bool":
+			return "(or (= " + term + " 0) (= " + term + " 1))"
+		case "Int32":
+			return rng(new(big.Int).Neg(pow2(31)), new(big.Int).Sub(pow2(31), big.NewInt(1)))
+		case "Int64":
+			return rng(new(big.Int).Neg(pow2(63)), new(big.Int).Sub(pow2(63), big.NewInt(1)))
+		case "Uint32":
+			return rng(big.NewInt(0), new(big.Int).Sub(pow2(32), big.NewInt(1)))
+		case "Uint64":
+			return rng(big.NewInt(0), new(big.Int).Sub(pow2(64), big.NewInt(1)))
+		}
+	}
 	switch l.GoT.Underlying().(type) {
 	case *types.Pointer, *types.Map, *types.Chan, *types.Signature:
 		return "(>= " + term + " 0)"
